@@ -90,6 +90,8 @@ scanIsContinued(String line)
       case '(':
       case '{': 
 	unmatchedBraces++; 
+	/* "== {" opens a block that its closing brace ends, not a pile */
+	doubleEqualIsLast = false;
 	break;
       case ')':
       case '}': 
